@@ -19,7 +19,14 @@ AST
 """
 import struct
 
-TYN = {"I": "INTEGER", "F": "FLOAT", "S": "STRING", "B": "BOOL", "R": "RTIME", "T": "TIME", "P": "IP"}
+TYN = {"I": "INTEGER", "F": "FLOAT", "S": "STRING", "B": "BOOL", "R": "RTIME", "T": "TIME", "P": "IP",
+       "K": "BACKEND", "A": "ACL"}
+CORE = "IFSBR"
+WILD_TYPES = "TPKA"
+BACKENDS = ["F_a", "F_b", "F_c"]
+ACLS = ["A_a", "A_b"]
+WILD_DECLS = "".join('backend %s { .host = "127.0.0.%d"; .port = "80"; }\n' % (b, i + 1) for i, b in enumerate(BACKENDS)) + \
+    "".join('acl %s { "10.%d.0.0"/16; }\n' % (a, i) for i, a in enumerate(ACLS))
 FIELDS = ["k1", "k2"]
 SCOPES = {
     "recv": {"globals": [("req.max_stale_if_error", "R"), ("req.max_stale_while_revalidate", "R"),
@@ -180,6 +187,9 @@ class Prog:
             linemap[ln] = ("stmt", s, frame)
             snaplogs(ind, visible)
 
+        if self.wild:
+            for ln in WILD_DECLS.splitlines():
+                emit(ln, 0)
         for fid, params, ret, body in self.subs:
             ps = ", ".join("%s var.v%d" % (TYN.get(t, t), k) for k, t in params)
             emit("sub f%d%s%s {" % (fid, "(%s)" % ps if params else "", " " + TYN.get(ret, ret) if ret else ""), 0)
@@ -283,9 +293,14 @@ def expr_has(e, kinds):
 
 
 class StoreGen:
-    def __init__(self, rng, wild=False, max_stmts=14, errors=0.08):
+    def __init__(self, rng, wild=False, max_stmts=14, errors=0.08, focus=False):
+        """focus: spend about half of the statements on the property's sharp dimensions - expression SHAPES
+        (prefix operators over groups / if() / function results / unary plus, groups and if() as operands and
+        as right-hand sides of every assignment operator) and, for wild programs, locals / parameters /
+        results of EVERY type passed to subroutines that assign to them"""
         self.r = rng
         self.wild = wild
+        self.focus = focus
         self.max_stmts = max_stmts
         self.errors = errors
         self.stats = {}
@@ -343,6 +358,9 @@ class StoreGen:
     def args_for(self, fr, params, d):
         args = []
         for _, t in params:
+            if t in WILD_TYPES:
+                args.append(self.wild_typed(fr, t, d + 1, arg=True))
+                continue
             k = self.r.random()
             if k < 0.55:
                 a = self.var(fr, t) or self.lit(t)       # a variable of the same type: the aliasing case
@@ -360,6 +378,8 @@ class StoreGen:
         (isValidStatementExpression applies); cond: evaluated in condition mode."""
         r = self.r
         self._c("expr:" + ty)
+        if ty in WILD_TYPES:
+            return self.wild_typed(fr, ty, d)
         if self.wild and r.random() < 0.3:
             w = self.wild_expr(fr, ty, d)
             if w is not None:
@@ -383,10 +403,7 @@ class StoreGen:
         if ty in ("I", "F", "R"):
             if k < 0.75:
                 self._c("expr:neg")
-                inner = v if (v is not None and r.random() < 0.75) else self.lit(ty)
-                if r.random() < 0.15:
-                    inner = ("neg", inner)
-                return ("neg", inner)
+                return ("neg", self.shaped(fr, ty, d + 1, "neg"))
             if ty == "I" and k < 0.88:
                 self._c("expr:builtin")
                 return ("bi", 0, [self.expr(fr, "S", d + 1)])
@@ -415,10 +432,78 @@ class StoreGen:
             return self.condition(fr, d + 1, as_value=True)
         return v or self.lit(ty)
 
+    def shaped(self, fr, ty, d, under):
+        """the operand of a prefix minus: a variable's own cell reached through every construct that
+        returns its operand's cell (group, if(), unary plus, a function returning its parameter ...)"""
+        r = self.r
+        v = self.var(fr, ty)
+        k = r.random()
+        base = 0.25 if self.focus else 0.55
+        if v is None or k < base:
+            if v is not None and r.random() < 0.8:
+                return v
+            return self.lit(ty)
+        fs = self.funcs_returning(fr, ty)
+        sh = r.choice(["grp", "grp", "if", "if", "pos", "neg", "grpif"] + (["call", "call"] if fs else []))
+        self._c("dim:shape:%s-over-%s" % (under, sh))
+        v2 = self.var(fr, ty) or self.lit(ty)
+        if sh == "grp":
+            return ("grp", v)
+        if sh == "if":
+            a, b = (v, v2) if r.random() < 0.5 else (v2, v)
+            return ("if", self.condition(fr, d + 1), a, b)
+        if sh == "grpif":
+            return ("grp", ("if", self.condition(fr, d + 1), v, v2))
+        if sh == "pos":
+            return ("pos", v)
+        if sh == "neg":
+            return ("neg", self.shaped(fr, ty, d + 1, under) if d < 3 else v)
+        f = r.choice(fs)
+        return ("call", f[0], self.args_for(fr, f[1], d))
+
+    def shape_stmt(self, fr):
+        """one statement of the SHAPES dimension: every assignment operator with a right-hand side that
+        reaches a variable's cell through a prefix operator / group / if() / function result"""
+        r = self.r
+        core = sorted(kk for kk, t in fr["locals"].items() if t in "IFRB")
+        if not core:
+            return None
+        kk = r.choice(core)
+        ty = fr["locals"][kk]
+        T = ("l", kk)
+        if ty == "B":
+            op = r.choice(["=", "||=", "&&="])
+            c = self.condition(fr, 1, as_value=True)
+            if c[0] != "grp":
+                c = ("grp", ("not", c)) if r.random() < 0.5 else c
+            self._c("dim:shape:stmt-bool" + op)
+            return ("set", T, op, c)
+        op = r.choice({"I": ["=", "+=", "-="], "F": ["="], "R": ["=", "+="]}[ty])
+        k = r.random()
+        if k < 0.6:
+            e = ("neg", self.shaped(fr, ty, 1, "neg"))
+        elif k < 0.8:
+            v = self.var(fr, ty) or self.lit(ty)
+            e = ("if", self.condition(fr, 1), v, ("neg", self.shaped(fr, ty, 2, "neg")))
+        else:
+            e = ("pos", self.var(fr, ty)) if self.var(fr, ty) else self.lit(ty)
+        self._c("dim:shape:stmt-%s%s" % (ty, op))
+        return ("set", T, op, e)
+
     def operand(self, fr, ty, d, nonlit=False):
         """an operand of a comparison: atomic in the concrete syntax"""
         v = self.var(fr, ty)
         k = self.r.random()
+        if v is not None and ty in "IRSB" and self.r.random() < (0.35 if self.focus else 0.12):
+            # a stored cell reached through a group / an if() / unary plus: still the variable's own cell
+            v2 = self.var(fr, ty) or v
+            sh = self.r.choice(["grp", "if", "pos"] if ty in "IR" else ["grp", "if"])
+            self._c("dim:shape:operand-" + sh)
+            if sh == "grp":
+                return ("grp", v)
+            if sh == "if":
+                return ("if", self.condition(fr, d + 2), v, v2)
+            return ("pos", v)
         if nonlit:
             if v is not None and k < 0.8:
                 return v
@@ -472,6 +557,14 @@ class StoreGen:
             return wrap(("bin", r.choice(["&&", "||"]), a, b))
         if k < 0.90:
             self._c("cond:not")
+            if bv is not None and r.random() < (0.5 if self.focus else 0.2):
+                fs = self.funcs_returning(fr, "B")
+                sh = r.choice(["if", "if", "call"] if fs else ["if"])
+                self._c("dim:shape:not-over-" + sh)
+                if sh == "if":
+                    return wrap(("not", ("if", self.condition(fr, d + 2), bv, self.var(fr, "B") or self.lit("B"))))
+                f = r.choice(fs)
+                return wrap(("not", ("call", f[0], self.args_for(fr, f[1], d + 1))))
             if r.random() < 0.5:
                 sv = self.vars_of(fr, "S")
                 if sv:
@@ -549,7 +642,11 @@ class StoreGen:
         k = r.random()
         if r.random() < self.errors / 25:
             return self.error_stmt(fr)
-        if self.wild and r.random() < 0.4:
+        if r.random() < (0.35 if self.focus else 0.06):
+            w = self.shape_stmt(fr)
+            if w is not None:
+                return w
+        if self.wild and r.random() < (0.55 if self.focus else 0.4):
             w = self.wild_stmt(fr)
             if w is not None:
                 return w
@@ -613,12 +710,14 @@ class StoreGen:
                 fr["locals"][kk] = ty
                 self.p.local_ty[kk] = ty
         if self.wild:
-            for ty in "TP":
-                if self.r.random() < (0.9 if fid == "main" else 0.3):
+            for ty in WILD_TYPES:
+                for _ in range(2 if (fid == "main" and ty == "K") else 1):
+                  if self.r.random() < (0.9 if fid == "main" else 0.3):
                     kk = self.fresh_local()
                     body.append(("decl", kk, ty, None))
                     fr["locals"][kk] = ty
                     self.p.local_ty[kk] = ty
+                    self._c("dim:types:local-" + TYN[ty])
         return fr, body
 
     def program(self):
@@ -634,9 +733,25 @@ class StoreGen:
         self.nlocal = 0
         callable_ = []
         for fid in range(r.choice([0, 1, 2, 2, 3])):
-            params = [(self.fresh_local(), r.choice("IFSBR" if r.random() < 0.5 else "IS")) for _ in range(r.choice([0, 1, 1, 2]))]
-            ret = r.choice([None, None, "I", "S", "B", "R", "F"])
+            if self.wild:
+                npar = r.choice([1, 1, 2, 2, 3]) if self.focus else r.choice([0, 1, 1, 2])
+                params = [(self.fresh_local(), r.choice(CORE + WILD_TYPES + "KKTP")) for _ in range(npar)]
+                ret = r.choice([None, None, "I", "S", "B", "R", "F", "K", "K", "T", "P"])
+                for _, t in params:
+                    self._c("dim:types:param-" + TYN[t])
+                if ret:
+                    self._c("dim:types:result-" + TYN[ret])
+            else:
+                params = [(self.fresh_local(), r.choice("IFSBR" if r.random() < 0.5 else "IS")) for _ in range(r.choice([0, 1, 1, 2]))]
+                ret = r.choice([None, None, "I", "S", "B", "R", "F"])
             fr, body = self.frame(fid, params, ret, list(callable_))
+            if self.wild:
+                # the callee assigns to its parameters: by-value passing is what is being observed
+                for k, t in params:
+                    if r.random() < 0.7:
+                        w = self.assign_any(fr, k, t)
+                        if w is not None:
+                            body.append(w)
             body += self.stmts(fr, r.randint(1, 5))
             if ret is not None:
                 body.append(("ret", self.expr(fr, ret, 1)))
@@ -648,6 +763,10 @@ class StoreGen:
         for k in sorted(fr["locals"]):
             if r.random() < 0.8 and fr["locals"][k] in "IFSBR":
                 body.append(("set", ("l", k), "=", self.lit(fr["locals"][k])))
+        if self.wild:
+            for k in sorted(fr["locals"]):
+                if fr["locals"][k] in "KTP" and r.random() < 0.8:
+                    body.append(self.assign_any(fr, k, fr["locals"][k], literal=True))
         for o in range(len(p.objs)):
             for h in range(len(HDRS)):
                 if r.random() < 0.6:
@@ -676,6 +795,39 @@ class WildGen(StoreGen):
         if v is not None and self.r.random() < 0.7:
             return self.p.name_text(v[1])
         return '"%s"' % self.r.choice(WORDS).decode()
+
+    def wild_typed(self, fr, ty, d, arg=False):
+        """an expression of type TIME / IP / BACKEND / ACL: preferably a variable's own cell, also through
+        if() and through functions returning that type"""
+        r = self.r
+        vs = [("l", k) for k, t in fr["locals"].items() if t == ty]
+        lits = {"T": ["now"], "P": ['"10.0.0.1"', "client.ip", '"192.168.7.7"'], "K": BACKENDS, "A": ACLS}[ty]
+        lit = ("raw", r.choice(lits), {})
+        k = r.random()
+        if vs and (k < 0.6 or ty == "A"):
+            return ("var", r.choice(vs))
+        fs = self.funcs_returning(fr, ty)
+        if fs and k < 0.75 and d < 3:
+            f = r.choice(fs)
+            self._c("dim:types:call-returning-" + TYN[ty])
+            return ("call", f[0], self.args_for(fr, f[1], d + 1))
+        if vs and k < 0.9 and d < 3 and ty != "A":
+            self._c("dim:types:if()-of-" + TYN[ty])
+            return ("if", self.condition(fr, d + 1), ("var", r.choice(vs)), ("var", r.choice(vs)) if r.random() < 0.5 else lit)
+        return lit
+
+    def assign_any(self, fr, k, t, literal=False):
+        """a statement that assigns to local / parameter k of type t"""
+        r = self.r
+        T = ("l", k)
+        if t in CORE:
+            return ("set", T, "=", self.lit(t) if (literal or r.random() < 0.5) else self.expr(fr, t, 1, top=True))
+        if t == "A":
+            return None                       # ACL locals cannot be assigned in this interpreter
+        self._c("dim:types:assign-" + TYN[t])
+        if literal:
+            return ("set", T, "=", ("raw", {"T": "now", "P": '"10.9.8.7"', "K": r.choice(BACKENDS)}[t], {}))
+        return ("set", T, "=", self.wild_typed(fr, t, 1))
 
     def wild_expr(self, fr, ty, d):
         r = self.r
@@ -721,7 +873,11 @@ class WildGen(StoreGen):
     def wild_stmt(self, fr):
         r = self.r
         p = self.p
-        c = r.choice(["intop", "floatop", "cross", "cross", "field", "field", "add", "url", "time", "ip", "rtimeop"])
+        kinds = ["intop", "floatop", "cross", "cross", "field", "field", "add", "url", "time", "ip", "rtimeop",
+                 "typed", "typed", "typedcall", "typedcall"]
+        if self.focus:
+            kinds += ["typed", "typedcall"] * 6
+        c = r.choice(kinds)
         iv, fv, sv, rv = self.lv(fr, "I"), self.lv(fr, "F"), self.lv(fr, "S"), self.lv(fr, "R")
         tv, pv = self.lv(fr, "T"), self.lv(fr, "P")
         nt = p.name_text
@@ -729,6 +885,21 @@ class WildGen(StoreGen):
         def st(text, target, has=()):
             self._c("wstmt:" + c)
             return ("rawstmt", text, {"target": target, "has": list(has)})
+        if c == "typed":
+            ws = [(k, t) for k, t in fr["locals"].items() if t in "TPK"]
+            if ws:
+                k, t = r.choice(ws)
+                return self.assign_any(fr, k, t)
+        if c == "typedcall":
+            fs = [f for f in fr["callable"] if any(t in WILD_TYPES for _, t in f[1])]
+            if fs:
+                f = r.choice(fs)
+                self._c("dim:types:call-with-typed-args")
+                if f[2] is not None and f[2] in "TPK" and r.random() < 0.6:
+                    ws = [k for k, t in fr["locals"].items() if t == f[2]]
+                    if ws:
+                        return ("set", ("l", r.choice(ws)), "=", ("call", f[0], self.args_for(fr, f[1], 1)))
+                return ("call", f[0], self.args_for(fr, f[1], 1))
         if c == "intop" and iv:
             op = r.choice(["*=", "/=", "%=", "|=", "&=", "^=", "<<=", ">>=", "rol=", "ror="])
             other = self.lv(fr, "I")
